@@ -204,7 +204,7 @@ def stepLppp (st : Unit) (ws : List String) : Unit × String :=
       -- NewPacket clamps the capacity of the packet buffer to its length in every mode
       -- (`data = data[:len(data):len(data)]`), so the first decoder always sees cap = len
       let tail : List UInt8 := []
-      (st, showRun (newPacket dec { vis := data, tail := tail }))
+      (st, showRun (newPacket (mode == "lazy") dec { vis := data, tail := tail }))
     | _, _, _, _ => (st, "bad-op")
   | ["lppp", "ser", "ppp", fix, csum, hist, ty, pptp, pl] =>
     match boolOf fix, boolOf csum, bufOf hist, natBelow ty 65536, boolOf pptp, payloadOf pl with
